@@ -39,3 +39,12 @@ Theorem C07_grouped_write_one_frame_per_sink :
     emitted evs = flat_map one_frame (per_sink_rows sinks s).
 Proof. exact grouped_write_one_frame_per_sink. Qed.
 Print Assumptions C07_grouped_write_one_frame_per_sink.
+
+(* the same for datasets: a shared QuadStream with a DatasetsFrameFlow *)
+Theorem C07_grouped_write_one_frame_per_sink_quads :
+  forall (sinks : list sdata) (s s' : stream) (evs : list tev),
+    st_class s = QuadStream -> fl_kind (st_flow s) = FDatasets ->
+    grouped_frames sinks s = (s', evs) -> raised evs = None ->
+    emitted evs = flat_map one_frame (per_sink_rows_q sinks s).
+Proof. exact grouped_write_one_frame_per_sink_quads. Qed.
+Print Assumptions C07_grouped_write_one_frame_per_sink_quads.
